@@ -625,7 +625,12 @@ func (loader *Loader) resolveHeaderRef(doc *T, component *HeaderRef, documentPat
 			return nil
 		}
 		if !loader.shouldVisitRef(ref, func(value any) {
-			component.Value = value.(*Header)
+			v, ok := value.(*Header)
+			if !ok {
+				// the in-progress reference with this same string designates an object of another kind
+				return
+			}
+			component.Value = v
 			refPath, _ := loader.resolveRefPath(ref, documentPath)
 			component.setRefPath(refPath)
 		}) {
@@ -679,7 +684,12 @@ func (loader *Loader) resolveParameterRef(doc *T, component *ParameterRef, docum
 			return nil
 		}
 		if !loader.shouldVisitRef(ref, func(value any) {
-			component.Value = value.(*Parameter)
+			v, ok := value.(*Parameter)
+			if !ok {
+				// the in-progress reference with this same string designates an object of another kind
+				return
+			}
+			component.Value = v
 			refPath, _ := loader.resolveRefPath(ref, documentPath)
 			component.setRefPath(refPath)
 		}) {
@@ -744,7 +754,12 @@ func (loader *Loader) resolveRequestBodyRef(doc *T, component *RequestBodyRef, d
 			return nil
 		}
 		if !loader.shouldVisitRef(ref, func(value any) {
-			component.Value = value.(*RequestBody)
+			v, ok := value.(*RequestBody)
+			if !ok {
+				// the in-progress reference with this same string designates an object of another kind
+				return
+			}
+			component.Value = v
 			refPath, _ := loader.resolveRefPath(ref, documentPath)
 			component.setRefPath(refPath)
 		}) {
@@ -811,7 +826,12 @@ func (loader *Loader) resolveResponseRef(doc *T, component *ResponseRef, documen
 			return nil
 		}
 		if !loader.shouldVisitRef(ref, func(value any) {
-			component.Value = value.(*Response)
+			v, ok := value.(*Response)
+			if !ok {
+				// the in-progress reference with this same string designates an object of another kind
+				return
+			}
+			component.Value = v
 			refPath, _ := loader.resolveRefPath(ref, documentPath)
 			component.setRefPath(refPath)
 		}) {
@@ -891,7 +911,12 @@ func (loader *Loader) resolveSchemaRef(doc *T, component *SchemaRef, documentPat
 			return nil
 		}
 		if !loader.shouldVisitRef(ref, func(value any) {
-			component.Value = value.(*Schema)
+			v, ok := value.(*Schema)
+			if !ok {
+				// the in-progress reference with this same string designates an object of another kind
+				return
+			}
+			component.Value = v
 			refPath, _ := loader.resolveRefPath(ref, documentPath)
 			component.setRefPath(refPath)
 		}) {
@@ -977,7 +1002,12 @@ func (loader *Loader) resolveSecuritySchemeRef(doc *T, component *SecurityScheme
 			return nil
 		}
 		if !loader.shouldVisitRef(ref, func(value any) {
-			component.Value = value.(*SecurityScheme)
+			v, ok := value.(*SecurityScheme)
+			if !ok {
+				// the in-progress reference with this same string designates an object of another kind
+				return
+			}
+			component.Value = v
 			refPath, _ := loader.resolveRefPath(ref, documentPath)
 			component.setRefPath(refPath)
 		}) {
@@ -1017,7 +1047,12 @@ func (loader *Loader) resolveExampleRef(doc *T, component *ExampleRef, documentP
 			return nil
 		}
 		if !loader.shouldVisitRef(ref, func(value any) {
-			component.Value = value.(*Example)
+			v, ok := value.(*Example)
+			if !ok {
+				// the in-progress reference with this same string designates an object of another kind
+				return
+			}
+			component.Value = v
 			refPath, _ := loader.resolveRefPath(ref, documentPath)
 			component.setRefPath(refPath)
 		}) {
@@ -1061,7 +1096,12 @@ func (loader *Loader) resolveCallbackRef(doc *T, component *CallbackRef, documen
 			return nil
 		}
 		if !loader.shouldVisitRef(ref, func(value any) {
-			component.Value = value.(*Callback)
+			v, ok := value.(*Callback)
+			if !ok {
+				// the in-progress reference with this same string designates an object of another kind
+				return
+			}
+			component.Value = v
 			refPath, _ := loader.resolveRefPath(ref, documentPath)
 			component.setRefPath(refPath)
 		}) {
@@ -1117,7 +1157,12 @@ func (loader *Loader) resolveLinkRef(doc *T, component *LinkRef, documentPath *u
 			return nil
 		}
 		if !loader.shouldVisitRef(ref, func(value any) {
-			component.Value = value.(*Link)
+			v, ok := value.(*Link)
+			if !ok {
+				// the in-progress reference with this same string designates an object of another kind
+				return
+			}
+			component.Value = v
 			refPath, _ := loader.resolveRefPath(ref, documentPath)
 			component.setRefPath(refPath)
 		}) {
@@ -1162,7 +1207,9 @@ func (loader *Loader) resolvePathItemRef(doc *T, pathItem *PathItem, documentPat
 			return
 		}
 		if !loader.shouldVisitRef(ref, func(value any) {
-			*pathItem = *value.(*PathItem)
+			if v, ok := value.(*PathItem); ok {
+				*pathItem = *v
+			}
 		}) {
 			return nil
 		}
